@@ -318,3 +318,12 @@ def r4(ctx):
     ctx.require(ok, b, 'offset-step', 'offset += group_len once per group', None)
     ctx.require(len(glen) == 1, b, 'group-len', 'group_len = group.len()', None)
     ctx.require(len(strd) == 1, b, 'stride', 'stride = total number of tokens', None)
+
+
+@rule('C17', 'R-C17-5', 'prerequisite (C01 framing agrees with the group counts)',
+      'the ids are framed by add_prefix_and_suffix with exactly prefix_token_ids / suffix_token_ids, unconditionally: the groups of '
+      'R-C17-1 are seeded with one Full(1) per prefix / suffix token, so a prefix that is dropped or added conditionally breaks the '
+      'partition (re-evaluates R-C01-1)')
+def r5(ctx):
+    from rules import c01
+    c01.r1(ctx)
